@@ -25,6 +25,6 @@ COMPONENTS = {
 }
 ASSUMPTIONS = [
     "no fault is injected (a truncated mmap would SIGBUS): the claim is fault-free only",
-    "layouts whose whole-file read raises are excluded, as the statement says ('that the reader opens and can read in full')",
+    "layouts with 1 or 2 polarisations, which this reader cannot read in full on the pinned tree, are excluded as the statement says ('that the reader opens and can read in full'); a four-polarisation file that fails to open or read is a violation, not an exclusion",
     "whole-file read vs model with 1e-5 relative tolerance; position independence asserted bitwise",
 ]
